@@ -81,6 +81,12 @@ PROPS = {
         "assumptions": [],
         "partial": ["acceptance of the merged proof list for secret = user share + server share is established by replay + oracle over all exchanges (algebraic completeness theorem pending, as for C04)"],
     },
+    "C18": {
+        "suite": "C18", "ref_sample": 40,
+        "trusted": ["encoding/xml, encoding/json, encoding/base64, fxamacker/cbor tokenisers (not modelled); the POSIX model of open(2)/fchmod(2) in FilePerm.v (validated on the real file system)"],
+        "assumptions": [],
+        "partial": ["'a re-read message verifies exactly as the original' is established by re-verification of re-read messages (oracle), the JSON/CBOR tokenisers are not modelled"],
+    },
     "C19": {
         "suite": "C19", "ref_sample": 60, "mismatch_is_violation": True,
         "trusted": ["math/big (GCD, Exp, ModInverse, ProbablyPrime, Jacobi used as reference oracle in the harness)"],
